@@ -116,22 +116,33 @@ func c14Occurrences(src string) []c14Occ {
 const c14Mark = "REDACTED"
 
 // c14Align searches disjoint increasing spans such that out == src with the spans replaced by the
-// marker.  justified: only spans [s',e) with s <= s' <= a for an occurrence (s,a,e) are allowed,
-// otherwise any non-empty span.  cover: positions of 'must' occurrences may not be copied.
-func c14Align(src, out string, occ []c14Occ, justified, cover bool) (bool, [][2]int) {
+// marker.  Which spans are allowed:
+//
+//	c14Tight   [s',e) with s <= s' <= a for an occurrence (s,a,e) (what the code does; tried first, it is fast)
+//	c14Within  any non-empty span all of whose bytes belong to address occurrences ("touches nothing else")
+//	c14Any     any non-empty span
+//
+// cover: bytes of 'must' occurrences may not be copied to the output.
+const (
+	c14Tight = iota
+	c14Within
+	c14Any
+)
+
+func c14Align(src, out string, occ []c14Occ, mode int, cover bool) (bool, [][2]int) {
 	n, m := len(src), len(out)
 	mustPos := make([]bool, n+1)
-	if cover {
-		for _, o := range occ {
-			if o.must {
-				for i := o.s; i < o.e; i++ {
-					mustPos[i] = true
-				}
+	inOcc := make([]bool, n+1)
+	for _, o := range occ {
+		for i := o.s; i < o.e; i++ {
+			inOcc[i] = true
+			if cover && o.must {
+				mustPos[i] = true
 			}
 		}
 	}
-	spanEnds := make([][]int, n+1) // allowed span ends per start
-	if justified {
+	spanEnds := make([][]int, n+1) // allowed span ends per start (c14Tight)
+	if mode == c14Tight {
 		for _, o := range occ {
 			for s := o.s; s <= o.a; s++ {
 				dup := false
@@ -147,6 +158,14 @@ func c14Align(src, out string, occ []c14Occ, justified, cover bool) (bool, [][2]
 	dead := make(map[[2]int]bool)
 	var spans [][2]int
 	var rec func(i, j int) bool
+	try := func(i, e, j int) bool {
+		spans = append(spans, [2]int{i, e})
+		if rec(e, j+len(c14Mark)) {
+			return true
+		}
+		spans = spans[:len(spans)-1]
+		return false
+	}
 	rec = func(i, j int) bool {
 		// copy as far as it is forced (no marker can start here)
 		for {
@@ -168,22 +187,23 @@ func c14Align(src, out string, occ []c14Occ, justified, cover bool) (bool, [][2]
 			return false
 		}
 		// a span starts here
-		if i < n {
-			if justified {
-				for _, e := range spanEnds[i] {
-					spans = append(spans, [2]int{i, e})
-					if rec(e, j+len(c14Mark)) {
-						return true
-					}
-					spans = spans[:len(spans)-1]
+		switch mode {
+		case c14Tight:
+			for _, e := range spanEnds[i] {
+				if try(i, e, j) {
+					return true
 				}
-			} else {
-				for e := i + 1; e <= n; e++ {
-					spans = append(spans, [2]int{i, e})
-					if rec(e, j+len(c14Mark)) {
-						return true
-					}
-					spans = spans[:len(spans)-1]
+			}
+		case c14Within:
+			for e := i + 1; e <= n && inOcc[e-1]; e++ {
+				if try(i, e, j) {
+					return true
+				}
+			}
+		default:
+			for e := i + 1; e <= n; e++ {
+				if try(i, e, j) {
+					return true
 				}
 			}
 		}
@@ -200,6 +220,9 @@ func c14Align(src, out string, occ []c14Occ, justified, cover bool) (bool, [][2]
 	return ok, spans
 }
 
+// c14Oracle: exactly what the property states - the new value is the source with spans replaced by the
+// marker, the spans contain nothing but bytes of addresses, every address (must) lies inside the spans,
+// and a source without address is unchanged.
 func c14Oracle(src, out string) []Fail {
 	occ := c14Occurrences(src)
 	if len(occ) == 0 {
@@ -208,11 +231,14 @@ func c14Oracle(src, out string) []Fail {
 		}
 		return nil
 	}
-	if ok, _ := c14Align(src, out, occ, true, true); ok {
+	if ok, _ := c14Align(src, out, occ, c14Tight, true); ok {
 		return nil
 	}
-	if ok, spans := c14Align(src, out, occ, true, false); ok {
-		// justified spans, but an address is not covered
+	if ok, _ := c14Align(src, out, occ, c14Within, true); ok {
+		return nil
+	}
+	if ok, spans := c14Align(src, out, occ, c14Within, false); ok {
+		// only addresses are touched, but an address is not covered
 		for _, o := range occ {
 			if !o.must {
 				continue
@@ -234,8 +260,8 @@ func c14Oracle(src, out string) []Fail {
 		}
 		return []Fail{{"c14:address-survives", fmt.Sprintf("%q becomes %q", src, out)}}
 	}
-	if ok, spans := c14Align(src, out, nil, false, false); ok {
-		return []Fail{{"c14:redacted-non-address", fmt.Sprintf("%q becomes %q: redacted spans %v are not all addresses of the supported shape", src, out, spans)}}
+	if ok, spans := c14Align(src, out, nil, c14Any, false); ok {
+		return []Fail{{"c14:redacted-non-address", fmt.Sprintf("%q becomes %q: redacted spans %v contain text that belongs to no address", src, out, spans)}}
 	}
 	return []Fail{{"c14:text-altered", fmt.Sprintf("%q becomes %q, which is not the source with spans replaced by REDACTED", src, out)}}
 }
@@ -328,10 +354,10 @@ func c14Run(c *Case) (out string, fails []Fail) {
 		if rc.record.Fields[0] != "app1" {
 			fails = append(fails, Fail{"c14:other-field", fmt.Sprintf("%q: the other field became %q", src, rc.record.Fields[0])})
 		}
-		// 'redacted' counter: advanced once, by the record length, exactly when the field was changed
+		// 'redacted' counter: advanced (by the record length) exactly when the field was changed
 		counterOK := cnt1 == cnt0 && len1 == len0
 		if rc.value != src {
-			counterOK = cnt1 == cnt0+1 && len1 == len0+int64(55+i)
+			counterOK = cnt1 > cnt0 && len1 == len0+(cnt1-cnt0)*int64(55+i)
 		}
 		if !counterOK {
 			fails = append(fails, Fail{"c14:counter", fmt.Sprintf("%q -> %q: counter moved by %d records / %d bytes", src, rc.value, cnt1-cnt0, len1-len0)})
